@@ -152,6 +152,38 @@ fn build_doc(a2ml_text: Option<&str>, blocks: &[(&'static str, Vec<Tok>)]) -> Do
     }
 }
 
+/// a document whose IF_DATA blocks conform to the A2ML block of the file (for the A2ML-interpreted
+/// parts of C01 and C02): text, the token list the written text must hold (comments inside IF_DATA
+/// are not kept), number of IF_DATA blocks
+pub fn gen_conforming_document(rng: &mut Rng) -> (String, vcommon::doc::Flat, usize) {
+    let def = gen_def(rng);
+    let def_text = render_def(&def, rng);
+    let mut blocks: Vec<(&'static str, Vec<Tok>)> = Vec::new();
+    let mut blocks_nc: Vec<(&'static str, Vec<Tok>)> = Vec::new();
+    let mut sites: Vec<&'static str> = SITES.to_vec();
+    rng.shuffle(&mut sites);
+    let n = rng.urange(3, 12);
+    for k in 0..n {
+        let site = if k < sites.len() { sites[k] } else { "MODULE" };
+        let inst = gen_instance(rng, &def);
+        let mut with_c = inst.toks.clone();
+        if rng.chance(1, 3) && !with_c.is_empty() {
+            for _ in 0..rng.urange(1, 3) {
+                // behind the last token more often than elsewhere
+                let at = if rng.coin() { with_c.len() } else { rng.below(with_c.len() + 1) };
+                let c = if rng.coin() { "/* note */" } else { "// note" };
+                with_c.insert(at, Tok::comment(c));
+            }
+        }
+        blocks_nc.push((site, inst.toks));
+        blocks.push((site, with_c));
+    }
+    let doc = build_doc(Some(&def_text), &blocks);
+    let flat_for_tokens = build_doc(Some(&def_text), &blocks_nc).flatten();
+    let text = render(&doc.flatten(), &LayoutCfg::c05(rng), rng).text;
+    (text, flat_for_tokens, n)
+}
+
 fn source_label(s: usize) -> &'static str {
     ["in_file", "built_in", "both_equal", "both_conflicting(built-in applies)", "both_conflicting(in-file applies)"][s]
 }
